@@ -141,7 +141,14 @@ def one_case(ctx, R, opts, mode, content, kind):
                             if r1 or [x[1] for x in r2] != [cur]:
                                 what = f'retransmission interval differs from the negotiated timeout {tmo}ns: at +timeout sent {r1}, at +timeout+1ns sent {r2}'
                                 break
-                            now = t_send + tmo + 2
+                            # ... and then once per interval, not more often
+                            t2 = t_send + tmo + 1
+                            r3 = S.tick(tid, t2 + tmo)
+                            r4 = S.tick(tid, t2 + tmo + 1)
+                            if r3 or [x[1] for x in r4] != [cur]:
+                                what = f'second retransmission not one timeout ({tmo}ns) after the first: at +timeout sent {len(r3)} datagrams, at +timeout+1ns sent {len(r4)}'
+                                break
+                            now = t2 + tmo + 2
                         out = S.packet(tid, 1, struct.pack('!HH', 4, blk), now)
                         if last_short:
                             break
@@ -167,7 +174,7 @@ def one_case(ctx, R, opts, mode, content, kind):
 
 
 def run(ctx, build):
-    R = ctx.runner('Tftp')
+    R = ctx.try_runner('Tftp')
     rng = ctx.rng
     # systematic: every subset and order of the four options with in-range values
     good = {'blksize': '16', 'tsize': '0', 'timeout': '3', 'utimeout': '20000'}
